@@ -90,3 +90,63 @@ Definition render_field (f : field) : str := fst f ++ [58; 32] ++ snd f ++ [10].
 Definition render (h : list field) : str := concat (map render_field h).
 
 Definition contains (sub s : str) : Prop := exists a b, s = a ++ sub ++ b.
+
+(* ------------------------------------------------------------------ *)
+(* Report-Msgid-Bugs-To: "could neither be parsed as an e-mail nor as a URL, or the e-mail address uses a reserved
+   domain name, or a partially qualified domain name"; [is_url]: the value has a URL scheme *)
+Definition report_invalid (lower : str -> str) (nb ob : list str) (addr : str) (is_url : Prop) : Prop :=
+  (~ In 64 addr /\ ~ is_url) \/ (In 64 addr /\ bad_address lower nb ob addr).
+(* "contains xgettext boilerplate": the address is the placeholder (whose domain is not reserved) *)
+Definition address_is_placeholder (lower : str -> str) (nb ob : list str) (placeholders : list str) (addr : str) : Prop :=
+  In addr placeholders /\ exists d, domain_part addr d /\ ~ reserved nb ob (lower d).
+
+(* Language-Team: only an e-mail address, if there is one, is judged (a URL is also allowed here) *)
+Definition team_placeholders : list str := [lit "LL@li.org"; lit "EMAIL@ADDRESS"].
+Definition team_invalid (lower : str -> str) (nb ob : list str) (addr : str) : Prop :=
+  exists d, domain_part addr d /\ (reserved nb ob (lower d) \/ (dotless d /\ ~ In addr team_placeholders)).
+(* a usable address: not reserved, not dot-less, not a placeholder *)
+Definition team_address_fine (lower : str -> str) (nb ob : list str) (addr : str) : Prop :=
+  exists d, domain_part addr d /\ ~ reserved nb ob (lower d) /\ ~ dotless d /\ ~ In addr team_placeholders.
+
+(* Python's str order: lexicographic by code point *)
+Inductive str_lt : str -> str -> Prop :=
+| str_lt_nil : forall c b, str_lt [] (c :: b)
+| str_lt_head : forall x y a b, x < y -> str_lt (x :: a) (y :: b)
+| str_lt_tail : forall x a b, str_lt a b -> str_lt (x :: a) (x :: b).
+
+(* Project-Id-Version: "It should contain the name and the version of the package" *)
+Definition has_letter (word digit : N -> bool) (v : str) : Prop :=
+  exists c, In c v /\ word c = true /\ digit c = false /\ c <> 95.
+Definition has_digit (v : str) : Prop := exists c, In c v /\ 48 <= c <= 57.
+
+(* unusual characters: C0 except TAB, LF and ESC-before-"[" ; DEL; C1; U+FEFF, U+FFFD, U+FFFE, U+FFFF;
+   INVERTED QUESTION MARK directly after a word character *)
+Definition opt_word (word : N -> bool) (o : option N) : Prop := match o with Some c => word c = true | None => False end.
+Definition last_of (s : str) : option N := match rev s with c :: _ => Some c | [] => None end.
+Definition first_of (s : str) : option N := match s with c :: _ => Some c | [] => None end.
+Definition suspicious (word : N -> bool) (prev : option N) (c : N) (next : option N) : Prop :=
+  c <= 8 \/ 11 <= c <= 26 \/ 28 <= c <= 31 \/ (c = 27 /\ next <> Some 91) \/ c = 127 \/ 128 <= c <= 159
+  \/ c = 65279 \/ c = 65533 \/ c = 65534 \/ c = 65535 \/ (c = 191 /\ opt_word word prev).
+Definition unusual_in (word : N -> bool) (s : str) (c : N) : Prop :=
+  exists a b, s = a ++ c :: b /\ suspicious word (last_of a) c (first_of b).
+
+(* initial comments: xgettext / msginit boilerplate.  \b = exactly one side is a word character *)
+Definition boundary (word : N -> bool) (prev next : option N) : Prop :=
+  (opt_word word prev /\ ~ opt_word word next) \/ (~ opt_word word prev /\ opt_word word next).
+(* \bW\b somewhere in the line *)
+Definition word_delimited (word : N -> bool) (w line : str) : Prop :=
+  exists pre suf, line = pre ++ w ++ suf /\ boundary word (last_of pre) (first_of w) /\ boundary word (last_of w) (first_of suf).
+(* \bCopyright \S+ YEAR\b *)
+Definition copyright_year (word space : N -> bool) (line : str) : Prop :=
+  exists pre x suf, line = pre ++ lit "Copyright " ++ x ++ lit " YEAR" ++ suf /\ x <> [] /\ (forall c, In c x -> space c = false) /\
+    boundary word (last_of pre) (Some 67) /\ boundary word (Some 82) (first_of suf).
+(* (?<=>), YEAR\b *)
+Definition gt_year (word : N -> bool) (line : str) : Prop :=
+  exists pre suf, line = pre ++ lit ">, YEAR" ++ suf /\ boundary word (Some 82) (first_of suf).
+Definition comment_boilerplate (word space : N -> bool) (template : bool) (line : str) : Prop :=
+  word_delimited word (lit "PACKAGE package") line \/ copyright_year word space line \/
+  word_delimited word (lit "THE PACKAGE'S COPYRIGHT HOLDER") line \/
+  (template = false /\ (word_delimited word (lit "FIRST AUTHOR") line \/ contains (lit "<EMAIL@ADDRESS>") line \/ gt_year word line)).
+(* every pattern contains one of these words *)
+Definition boilerplate_words : list str :=
+  [lit "PACKAGE package"; lit "YEAR"; lit "THE PACKAGE'S COPYRIGHT HOLDER"; lit "FIRST AUTHOR"; lit "<EMAIL@ADDRESS>"].
